@@ -103,7 +103,7 @@ func c14Plans(tier string) []core.Trace {
 // Caller-side cancellation (random runs only; planned scripts use mode 0): 0-3 the context is
 // never cancelled; 4 it is cancelled while the first commit request is in flight; 5 while the
 // second attempt's workspace is being created; 6 during the first manifest write.
-const c14CancelModes = 9 // 7, 8: two version-control back ends (runC14Multi)
+const c14CancelModes = 11 // 7, 8: two version-control back ends (runC14Multi); 9, 10: a snapshot-mode submission
 
 type c14Script struct {
 	runaway    bool
@@ -195,7 +195,7 @@ func manifestPaths(raw []byte) (map[string]string, error) {
 
 func runC14(r *core.Run) {
 	cancelMode := r.Intn(c14CancelModes, "cancel")
-	if cancelMode >= 7 {
+	if cancelMode == 7 || cancelMode == 8 {
 		runC14Multi(r)
 		return
 	}
@@ -216,7 +216,14 @@ func runC14(r *core.Run) {
 	startCalls := len(vcs.Calls)
 	img := images.Pool()[0]
 	q := Req{Image: img, OutDir: "out", Candidate: "c14", SNP: true, LaunchVmsas: 2, ClSpec: 7, Timestamp: a.Now, Retries: budget}
-	if cancelMode >= 4 {
+	snapshot := cancelMode >= 9
+	if snapshot {
+		// snapshot mode: firmware, signed endorsement and event files go to a directory of their
+		// own; no manifest is involved, the attempt/retry/workspace rules are the same
+		q.SnapshotDir = "snap"
+		r.Probe("snapshot-mode-submission")
+	}
+	if cancelMode >= 4 && cancelMode < 7 {
 		q.WithCancel = func(c func()) { sc.cancel = c }
 	}
 	_, err := Endorse(r, a, vcs, q, "")
@@ -331,7 +338,7 @@ func runC14(r *core.Run) {
 		if x.getErr != nil {
 			continue
 		}
-		if x.wroteManif && !x.manifBefore {
+		if !snapshot && x.wroteManif && !x.manifBefore {
 			r.Fail("stale-manifest-lost-update", "manifest-not-reread", "%s: attempt %d rewrote the manifest without reading it in its own workspace", where, i+1)
 		}
 		if !x.commitOK && x.destroyed == 0 {
@@ -349,6 +356,13 @@ func runC14(r *core.Run) {
 			r.Fail("result-recorded-≠1", "Result", "%s: Result was called %d times for one successful commit", where, len(vcs.Results))
 		} else if vcs.Results[0].Commit != okVal {
 			r.Fail("result-recorded-≠1", "Result-value", "%s: Result recorded %v, the successful TryCommit returned %v", where, vcs.Results[0].Commit, okVal)
+		}
+		if snapshot {
+			if _, ok := vcs.Head["/release/snap/"+img.Name+".signed"]; !ok {
+				r.Fail("success-misreported", "snapshot-file-missing", "%s: the commit succeeded but the signed endorsement is not in the snapshot directory", where)
+			}
+			r.State(fmt.Sprintf("snapshot b=%d a=%d ok=%d", budget, len(atts), succeeded))
+			return
 		}
 		// no lost update: head manifest lists the pre-existing entry, every writer entry and ours
 		got, perr := manifestPaths(vcs.Head[manifest])
